@@ -288,6 +288,60 @@ def sibling_history_cases(cases, rng, n):
             out.append(Case(line, kind, exp, dict(sib=True)))
     return out
 
+STRUCT_TRANSFORMS = [
+    ("reversed", lambda b, o: b[::-1]),
+    ("rotated-one-byte", lambda b, o: b[1:] + b[:1]),
+    ("complemented", lambda b, o: bytes(x ^ 0xFF for x in b)),
+    ("halves-swapped", lambda b, o: b[len(b) // 2:] + b[:len(b) // 2]),
+    ("all-zero", lambda b, o: bytes(len(b))),
+    ("all-ff", lambda b, o: b"\xff" * len(b)),
+    ("equal-to-another-argument", lambda b, o: o),
+]
+
+def structured_sibling_cases(cases, rng, per_op):
+    """Relation layer, generic over all properties: for every kind of call a check generates, a few calls are repeated with ONE
+    byte-string argument replaced by a STRUCTURED relative of itself — reversed, rotated, complemented, halves swapped, all zero,
+    all 0xFF, equal to another argument of the same length — every transform on every argument.  A one-bit flip or a random value never
+    produces these relations, and they are exactly what a special case keyed on a relation between inputs looks for (the other byte
+    order of a key, both seeds equal, a value and its complement).  Expected answers: tools/pydriver.py, and the Lean model."""
+    import pydriver
+    by_op = {}
+    for c in cases:
+        if len(c.line) >= 3000 or c.line.startswith(SIB_SKIP) or c.line.startswith("hdr "):
+            continue
+        if isinstance(c.meta, dict) and (c.meta.get("impl_only") or "group" in c.meta or "tgroup" in c.meta or c.meta.get("sib")):
+            continue
+        toks = c.line.partition(" | ")[0].split(" ")
+        key = toks[0] + (" " + toks[1] if len(toks) > 1 and len(toks[1]) == 1 else "")
+        by_op.setdefault(key, []).append(c)
+    out = []
+    for key in sorted(by_op):
+        pool = by_op[key]
+        for c in rng.sample(pool, min(per_op, len(pool))):
+            cmd, sep, draws = c.line.partition(" | ")
+            toks = cmd.split(" ")
+            idx = [i for i, t in enumerate(toks) if i > 0 and len(t) >= 8 and len(t) % 2 == 0 and re.fullmatch(r"[0-9a-f]+", t)
+                   and (len(t) >= 32 or re.search(r"[a-f]", t))]
+            for i in idx:
+                b = bytes.fromhex(toks[i])
+                others = [bytes.fromhex(toks[j]) for j in idx if j != i and len(toks[j]) == len(toks[i]) and toks[j] != toks[i]]
+                for name, f in STRUCT_TRANSFORMS:
+                    if name == "equal-to-another-argument" and not others:
+                        continue
+                    b2 = f(b, others[0] if others else b)
+                    if b2 == b:
+                        continue
+                    t2 = list(toks); t2[i] = b2.hex()
+                    line = " ".join(t2) + sep + draws
+                    try:
+                        e = pydriver.expected(line)
+                    except Exception:
+                        e = None
+                    if e is not None and toks[0] == "srv.server" and e.startswith("err"):
+                        e = None
+                    out.append(Case(line, "relation:one-argument-" + name, e, dict(sib=True)))
+    return out
+
 def load_known():
     p = os.path.join(VERIF, "known_findings.json")
     if not os.path.exists(p):
@@ -354,7 +408,9 @@ def main():
                             ln, exp = ln.split("\t=> ", 1)
                         cases.append(Case(ln, "corpus:" + f, exp))
     cases.extend(mod.generate(rng, tier))
-    cases.extend(sibling_history_cases(cases, rng, 120 if tier == "quick" else 3000))
+    base_cases = list(cases)
+    cases.extend(sibling_history_cases(base_cases, rng, 120 if tier == "quick" else 3000))
+    cases.extend(structured_sibling_cases(base_cases, rng, 2 if tier == "quick" else 25))
     lines = [c.line for c in cases]
     log("[%s] %d cases (%s tier, seed %d)" % (pid, len(lines), tier, seed))
 
